@@ -301,6 +301,17 @@ template<typename F> struct can_copy_assign<F, std::void_t<decltype(F::NO_COPY_A
 //                the string `same` (min/max, configuration) is unchanged
 // SM_REFUSES   : the call throws and leaves the read-out unchanged (if it does not throw it must double)
 // SM_IDEMPOTENT: set semantics, the content string `same` is unchanged
+// Per-instance allocator attribution.  Every adapter provides  static Arena* arena_of(const Obj&)  (the arena of
+// the allocator instance the object currently holds; units are built with -fno-access-control for this).
+// `static const bool SINGLE_INSTANCE = true;` declares that operations on one object (update, query, reset,
+// read-out, self-assign, self-merge, serialize) involve no other sketch-like operand and no scratch object, so
+// every allocation must go through the object's own instance.  `static const bool ITEM_PAYLOAD_DOUBLE = true;`
+// says the family's items are vectors / arrays of double carrying their own allocator (not attributed).
+template<typename F, typename = void> struct single_instance: std::false_type {};
+template<typename F> struct single_instance<F, std::void_t<decltype(F::SINGLE_INSTANCE)>>: std::true_type {};
+template<typename F, typename = void> struct payload_double { static const bool value = false; };
+template<typename F> struct payload_double<F, std::void_t<decltype(F::ITEM_PAYLOAD_DOUBLE)>> { static const bool value = F::ITEM_PAYLOAD_DOUBLE; };
+
 enum { SM_NONE = 0, SM_DOUBLES = 1, SM_REFUSES = 2, SM_IDEMPOTENT = 3 };
 struct SelfMergeFacts { std::vector<double> doubles; std::string same; };
 template<typename F, typename = void> struct self_merge_mode { static const int value = SM_NONE; };
@@ -317,18 +328,37 @@ template<typename F> struct Program {
   Rng& r;
   Cfg cfg;
   std::string fam;
-  Arena arena0{0}, arena1{1};
+  Arena arena0{0}, arena1{1}, arena2{2};
+  static constexpr bool SI = single_instance<F>::value;
+  Arena* home(const S* s) { return F::arena_of(s->co()); }
+  // after an operation on x alone: nothing may have been allocated through another object's allocator instance
+  void own_instance_only(const TrafficSnap& snap, const Arena* own, const char* op, const Arena* also_ok = nullptr) {
+    if (!SI) return;
+    checked();
+    int which = -99;
+    const uint64_t k = snap.foreign_allocs(own, also_ok, &which);
+    if (k) fail(fam + "|alloc-instance|" + op + "|allocated-through-foreign-allocator",
+                std::to_string(k) + " allocate call(s) went through the allocator instance of arena " + std::to_string(which) + " although the object operated on holds arena " + std::to_string(own ? own->id : -99) + " trace=" + trace);
+  }
   std::vector<std::unique_ptr<S>> pool;
   std::string trace;
   int nops_done = 0;
 
   explicit Program(Rng& rr): r(rr) {}
 
-  Arena* pick_arena() { return r.coin() ? &arena0 : &arena1; }
+  Arena* pick_arena() { const uint64_t k = r.below(3); return k == 0 ? &arena0 : (k == 1 ? &arena1 : &arena2); }
   void cnt(const char* what) { count(fam + "." + what); }
   void tr(const std::string& s) { if (trace.size() < 1500) { trace += s; trace += ';'; } }
 
-  std::string read(const S& s) { c19ctx().set_op("read-out"); return F::readout(s.co(), cfg); }
+  std::string read(const S& s) {
+    c19ctx().set_op("read-out");
+    if (!SI) return F::readout(s.co(), cfg);
+    const Arena* own = F::arena_of(s.co());
+    TrafficSnap snap;
+    std::string ro = F::readout(s.co(), cfg);
+    own_instance_only(snap, own, "read-out");
+    return ro;
+  }
 
   // every valid object of the pool still has the read-out it is expected to have
   void verify_all(const char* after, const S* skip = nullptr) {
@@ -383,19 +413,21 @@ template<typename F> struct Program {
     Arena* a = pick_arena();
     { LibScope ls("construct"); F::construct(s->mem, cfg, a, r); }
     s->constructed = s->valid = true;
+    checked();
+    if (home(s) != a) fail(fam + "|alloc-instance|construct|object-not-on-the-allocator-passed-in", "constructed with an allocator of arena " + std::to_string(a->id) + " but holds arena " + std::to_string(home(s) ? home(s)->id : -99));
     s->ro = read(*s);
     cnt("construct"); tr("new#" + std::to_string(pool.size() - 1) + "@A" + std::to_string(a->id));
   }
   void op_mutate(S* x) {
     tr("mutate#" + std::to_string(find_idx(x)));
-    { LibScope ls("mutate"); F::mutate(x->o(), cfg, r, pick_arena()); }
+    { const Arena* own = home(x); c19ctx().target = home(x); TrafficSnap snap; { LibScope ls("mutate"); F::mutate(x->o(), cfg, r, pick_arena()); } own_instance_only(snap, own, "update"); c19ctx().target = nullptr; }
     x->ro = read(*x);
     cnt("mutate"); count(fam + ".mode_" + F::mode(x->co(), cfg));
     verify_all("mutate", x);
   }
   void op_query(S* x) {
     tr("query#" + std::to_string(find_idx(x)));
-    { LibScope ls("query"); F::query(x->co(), cfg, r); }
+    { const Arena* own = home(x); TrafficSnap snap; { LibScope ls("query"); F::query(x->co(), cfg, r); } own_instance_only(snap, own, "query"); }
     cnt("query");
     verify_all("query");
   }
@@ -419,9 +451,12 @@ template<typename F> struct Program {
       steps.clear();
       LibScope ls("twin-sequence");
       if (F::HAS_RESET && t.chance(0.6)) { F::reset(s->o(), cfg); steps += "reset,"; }
+      c19ctx().target = home(s);
       F::mutate(s->o(), cfg, t, &arena0); steps += "mutate,";
       if (operand && t.coin()) { F::merge_ref(s->o(), operand->co(), cfg); steps += "merge,"; }
+      c19ctx().target = home(s);
       if (t.chance(0.3)) { F::mutate(s->o(), cfg, t, &arena0); steps += "mutate,"; }
+      c19ctx().target = nullptr;
     }
     const std::string ra = read(*a), rb = read(*b);
     checked();
@@ -597,7 +632,7 @@ template<typename F> struct Program {
     if (!probe("self-merge", [&] { try { F::merge_ref(ref, same, cfg); } catch (const std::exception&) {} (void)F::readout(same, cfg); })) return;
     const SelfMergeFacts before = sm_facts(same);
     bool threw = false; std::string what;
-    { LibScope ls("self-merge"); try { F::merge_ref(ref, same, cfg); } catch (const std::exception& e) { Exempt ex; threw = true; what = e.what(); } }
+    { const Arena* own = home(x); TrafficSnap snap; { LibScope ls("self-merge"); try { F::merge_ref(ref, same, cfg); } catch (const std::exception& e) { Exempt ex; threw = true; what = e.what(); } } own_instance_only(snap, own, "self-merge"); }
     const std::string ro_before = x->ro;
     if (threw) {
       cnt("self_merge_refused");
@@ -629,14 +664,37 @@ template<typename F> struct Program {
   }
   void op_merge_ref(S* x, S* y) {
     tr("merge#" + std::to_string(find_idx(x)) + "<-#" + std::to_string(find_idx(y)));
-    { LibScope ls("merge-const-ref"); F::merge_ref(x->o(), y->co(), cfg); }
+    {
+      const Arena* ax = home(x); const Arena* ay = home(y);
+      TrafficSnap snap;
+      { LibScope ls("merge-const-ref"); F::merge_ref(x->o(), y->co(), cfg); }
+      if (ax != ay) {
+        const uint64_t al = snap.allocs(ay), de = snap.deallocs(ay);
+        checked();
+        if (al || de) fail(fam + "|alloc-instance|merge-const-ref|used-const-operands-allocator",
+                           std::to_string(al) + " allocate and " + std::to_string(de) + " deallocate calls went through the allocator instance of the const operand (arena " + std::to_string(ay->id) + "), the target holds arena " + std::to_string(ax->id) + " trace=" + trace);
+        cnt("merge_ref_operand_instance_checked");
+      } else cnt("operand_same_instance_unchecked");
+      own_instance_only(snap, ax, "merge-const-ref");
+    }
     x->ro = read(*x);
     cnt("merge_ref"); count(fam + ".mode_" + F::mode(x->co(), cfg));
     verify_all("merge-const-ref", x);    // y (const operand) must be unchanged
   }
   void op_merge_move(S* x, S* y) {
     tr("merge-move#" + std::to_string(find_idx(x)) + "<-#" + std::to_string(find_idx(y)));
-    { LibScope ls("merge-by-move"); F::merge_move(x->o(), std::move(y->o()), cfg); }
+    {
+      const Arena* ax = home(x); const Arena* ay = home(y);
+      TrafficSnap snap;
+      { LibScope ls("merge-by-move"); F::merge_move(x->o(), std::move(y->o()), cfg); }
+      if (ax != ay) {
+        const uint64_t al = snap.allocs(ay);
+        checked();
+        if (al) fail(fam + "|alloc-instance|merge-by-move|allocated-through-consumed-operands-allocator",
+                     std::to_string(al) + " allocate calls went through the allocator instance of the rvalue operand (arena " + std::to_string(ay->id) + "), the target holds arena " + std::to_string(ax->id) + " trace=" + trace);
+        cnt("merge_move_operand_instance_checked");
+      } else cnt("operand_same_instance_unchecked");
+    }
     x->ro = read(*x);
     cnt("merge_move"); count(fam + ".mode_" + F::mode(x->co(), cfg));
     dispose_moved_from(y, 0, true);
@@ -644,7 +702,7 @@ template<typename F> struct Program {
   }
   void op_reset(S* x) {
     tr("reset#" + std::to_string(find_idx(x)));
-    { LibScope ls("reset"); F::reset(x->o(), cfg); }
+    { const Arena* own = home(x); TrafficSnap snap; { LibScope ls("reset"); F::reset(x->o(), cfg); } own_instance_only(snap, own, "reset"); }
     x->ro = read(*x);
     cnt("reset");
     verify_all("reset", x);
@@ -654,8 +712,10 @@ template<typename F> struct Program {
     Arena* a = pick_arena();
     tr("roundtrip#" + std::to_string(find_idx(x)) + "->#" + std::to_string(pool.size() - 1) + "@A" + std::to_string(a->id));
     count(fam + ".roundtrip_in_mode_" + F::mode(x->co(), cfg));
-    { LibScope ls("serialize-deserialize"); F::roundtrip(y->mem, x->co(), cfg, a, r); }
+    { const Arena* own = home(x); TrafficSnap snap; { LibScope ls("serialize-deserialize"); F::roundtrip(y->mem, x->co(), cfg, a, r); } own_instance_only(snap, own, "serialize-deserialize", a); }
     y->constructed = y->valid = true;
+    checked();
+    if (home(y) != a) fail(fam + "|alloc-instance|deserialize|object-not-on-the-allocator-passed-in", "deserialized with an allocator of arena " + std::to_string(a->id) + " but holds arena " + std::to_string(home(y) ? home(y)->id : -99));
     y->ro = read(*y);
     cnt("roundtrip");
     verify_all("serialize-deserialize", y);
@@ -690,6 +750,8 @@ template<typename F> struct Program {
   void run() {
     fam = F::name();
     c19ctx().family = fam;
+    c19ctx().double_is_item_payload = payload_double<F>::value;
+    c19ctx().target = nullptr;
     cfg = F::gen_cfg(r);
     const uint64_t s1 = r.next(), s2 = r.next();
     datasketches::random_utils::rand.seed(static_cast<std::mt19937_64::result_type>(s1));
@@ -718,7 +780,7 @@ template<typename F> struct Program {
     }
     c19ctx().set_op("end-of-case");
     // allocator: nothing remains
-    for (Arena* a : {&arena0, &arena1}) {
+    for (Arena* a : {&arena0, &arena1, &arena2}) {
       checked();
       if (!a->live.empty() || a->live_bytes != 0)
         fail(fam + "|alloc|blocks-live-after-last-object-died",
